@@ -114,6 +114,7 @@ type Genesis struct {
 	ForkHeight  int64
 	NilForks    bool
 	DevMode     bool
+	ChainID     string // "" = ChainID; the application has built-in fork overrides for some chain ids
 }
 
 // GenesisValidator is the single validator of the tendermint genesis document.
@@ -135,8 +136,12 @@ func (u *Universe) NewApp(g Genesis) (*app.ShutterApp, abcitypes.ResponseBeginBl
 	if err != nil {
 		panic(err)
 	}
+	chain := ChainID
+	if g.ChainID != "" {
+		chain = g.ChainID
+	}
 	a.InitChain(abcitypes.RequestInitChain{
-		ChainId:       ChainID,
+		ChainId:       chain,
 		AppStateBytes: b,
 		Validators: []abcitypes.ValidatorUpdate{{
 			PubKey: tmcrypto.PublicKey{Sum: &tmcrypto.PublicKey_Ed25519{Ed25519: GenesisValidator}},
@@ -274,12 +279,17 @@ func (w *World) Tx(a *app.ShutterApp, op Op, nonce uint64) []byte {
 	} else {
 		m = w.Message(a, op)
 	}
-	return SignTx(m, w.chain(), nonce, w.U.Keys[op.Sender])
+	return SignTx(m, w.chain(a), nonce, w.U.Keys[op.Sender])
 }
 
-func (w *World) chain() string {
+// chain is the chain id transactions are signed for: the world's, if set
+// (wrong-chain traffic), else the application's own.
+func (w *World) chain(a *app.ShutterApp) string {
 	if w.ChainID != "" {
 		return w.ChainID
+	}
+	if a != nil && a.ChainID != "" {
+		return a.ChainID
 	}
 	return ChainID
 }
